@@ -11,7 +11,11 @@ PROP = {'level': 'proof',
           'min!/max!/min_by!/max_by!/min_by_key! equal std::cmp for every comparator, max_by_key! for every '
           'antisymmetric key comparison, ties included; the emitted assignments come in component order and, '
           'run on any store with any place resolution, equal the sequence `p0 = t.0; p1 = t.1; ...` '
-          '(38 theorems). The model is tied to the code by '
+          '(38 theorems). As functions of their argument EXPRESSIONS (computations with arbitrary side effects): '
+          "the Option/Result expression and the eager second argument are evaluated exactly once, in std's order; "
+          'with a closure literal / path / variable every macro equals the std method call including when the '
+          'closure body runs; try_!/try_opt!/the rebind macros evaluate their argument once; min!/max!(_by(_key)) '
+          'evaluate each argument once (33 theorems, Props/C19Eval.lean). The model is tied to the code by '
           'generated Rust programs that expand the real macros: every macro x argument form x both variants '
           "x boundary payloads, rebind patterns of every arity with rustc's accept/reject verdict, all key "
           'pairs for min/max.',
@@ -30,15 +34,34 @@ PROP = {'level': 'proof',
          'hand-written assignment sequence, and the out-of-scope shapes (0 or 7 patterns, '
          "more/fewer patterns than components) with rustc's verdict; min!/max!/_by/_by_key in every closure "
          'form x all ordered pairs of keys from {i64::MIN,-1,0,1,i64::MAX} (+17 keys thorough) with '
-         'distinguishable identity.',
+         'distinguishable identity. Argument-evaluation programs (ev.*): every macro form with side-effecting '
+         'argument expressions (`pop(&mut cursor)` and `{ k += 1; v[k-1] }`), all value streams of length 1-2 over 3-4 '
+         'values (+2 longer) x default streams [7], [7,8]; closure literals that capture and mutate; function-valued '
+         'argument expressions with an effect; observed value | evaluation counts (in scope) and order (out of scope) '
+         'against the std expression given the same argument expressions (116 units, 1956+1956 requests). Position / '
+         'name programs (hy.*): every option::/result:: form with a trailing comma, and rotating over the forms (all of '
+         'them in the thorough tier): block / if / match arguments, operator / function-argument / match-scrutinee '
+         "position, inside the caller's loop, inside a closure, nested in other macros, in a const fn of another "
+         'return type, in const items; caller variables, closure parameters, function variables and function items '
+         'named like every identifier the expansion binds; caller const / static / unit struct of those names; '
+         'generic / associated / module-path function arguments; the same for try_!, try_opt!, the rebind macros and the '
+         'six min/max macros (508 units quick, 775 thorough); the two call sites of F19 are regression rows that come first.',
  'explanation': 'Theorems (Props/C19.lean) state model = std spec for all values and all closures; the '
                 "generated programs expand the real macros of /repo's working tree next to the std method / "
                 'a hand-written match / `?` in the same program, and the compiled Lean driver evaluates the '
                 "same model and spec definitions on every printed request. rustc's accept/reject verdict per "
                 "rebind unit is compared with the model's (walker expands and type-checks).",
- 'assumptions': ['closure arguments are modelled as total functions whose only observable effect is being '
-                 'called (a call counter); evaluation ORDER of several side-effecting arguments is not '
-                 'modelled (max_by_key! evaluates its second argument and its key first)',
+ 'assumptions': ['in the value theorems closure arguments are total functions whose only observable effect is being '
+                 'called (a call counter); the evaluation theorems (Props/C19Eval.lean) take arbitrary logging '
+                 'computations. Evaluation ORDER and the evaluation of a function-VALUED argument expression are '
+                 "modelled and compared but OUT of the property's scope: max_by_key! evaluates its second argument "
+                 'first, min_by_key! keys its first argument first (std 1.95 the second), a function argument of '
+                 'min_by!/max_by!/min_by_key!/max_by_key! is evaluated before the two values, and a function-valued '
+                 'expression given to unwrap_or_else!/ok_or_else!/result::* is evaluated only in the arm that calls it',
+                 'a caller const / static / unit struct named like an identifier pattern of an expansion (x, value, '
+                 'param, e, tuple, _e, left, right, left_key, right_key, __konst_pc_func, __konst_pc_x, __konst_pc_y) is '
+                 'a compile error and as such out of scope (as in C20); such a program that COMPILES is in scope and must '
+                 'equal std (F19, fixed by a6790b3: option::filter! and rebind_if_ok! now match exhaustively)',
                  "rustc's macro matching and type checking of the emitted statements is a verdict table in "
                  'the model (stmtOk), validated by compiling each rebind shape',
                  'max_by_key! equals std only for key types whose comparison is antisymmetric (every Ord / '
